@@ -88,7 +88,9 @@ Fixpoint bad_t (s : state) (t : tcase) : list Z :=
   match t with
   | T id o ob kids =>
       let r := step s o in
-      if obs_ok r ob then flat_map (bad_t (fst r)) kids else [id]
+      (* o_out = -1: the implementation was not observable after this operation (it ran
+         between two yield points of an interleaved subroutine): apply it, compare later *)
+      if (o_out ob =? -1) || obs_ok r ob then flat_map (bad_t (fst r)) kids else [id]
   end.
 
 Definition failing (ts : list tcase) : list Z := flat_map (bad_t init_state) ts.
